@@ -617,17 +617,23 @@ def _list_order_use(pkg, f, qual, fn, node) -> str:
     return _name_order_use(pkg, f, qual, fn, p_.targets[0].id)
 
 
-def _exempt_by_role(f, qual, fn, it, how):
-    """The same exemptions as EXEMPT, recognised by what the local IS rather than by what it is called."""
+def _exempt_by_role(f, qual, fn, it, how, node=None):
+    """The same exemptions as EXEMPT, recognised by what the iterated value IS rather than by what the local or the function that
+    holds the statement is called (a piece moved into a helper keeps its meaning)."""
+    def is_groups(e):
+        return isinstance(e, ast.Attribute) and e.attr == "grain_groups" and isinstance(e.value, ast.Name) and e.value.id == "self"
+    if f == NF and is_groups(it):
+        return EXEMPT[(NF, "Network.grains", "grain_groups")]
     if not isinstance(it, ast.Name):
         return None
     assigns = [n.value for n in ast.walk(fn) if isinstance(n, ast.Assign) and any(isinstance(t, ast.Name) and t.id == it.id for t in n.targets)]
-    if (f, qual) == (NF, "Network.grains") and len(assigns) == 1 and ast.unparse(assigns[0]) == "self.grain_groups":
+    if f == NF and len(assigns) == 1 and is_groups(assigns[0]):
         return EXEMPT[(NF, "Network.grains", "grain_groups")]
-    if (f, qual) == ("naunet/reactions/reaction.py", "Reaction.grain_group") and how == "iter()":
-        # the single-element guarantee: `if len(<it>) > 1: raise` dominates the use
+    if how == "iter()":
+        # the single-element guarantee: `if len(<it>) > 1: raise` stands before the use
+        line = getattr(node, "lineno", 10 ** 9)
         for n in ast.walk(fn):
-            if isinstance(n, ast.If) and ast.unparse(n.test).replace(" ", "") == f"len({it.id})>1" and n.body and isinstance(n.body[0], ast.Raise):
+            if isinstance(n, ast.If) and ast.unparse(n.test).replace(" ", "") == f"len({it.id})>1" and n.body and isinstance(n.body[0], ast.Raise) and n.lineno < line:
                 return EXEMPT[("naunet/reactions/reaction.py", "Reaction.grain_group", "groups")]
     return None
 
@@ -651,7 +657,7 @@ def _r1(ctx, pkg):
             for node, it, how in unordered_iterations(fn, typer):
                 src = " ".join(ast.unparse(it).split())
                 key = f"{qual}:{how}:{src[:60]}"
-                why = EXEMPT.get((f, qual, src)) or _exempt_by_role(f, qual, fn, it, how)
+                why = EXEMPT.get((f, qual, src)) or _exempt_by_role(f, qual, fn, it, how, node)
                 use = None
                 if not why and how in ("list()", "tuple()"):
                     # judged by what is done with the list: scanned into sets only (also by the callers a private helper returns it to)
